@@ -13,6 +13,7 @@ import (
 	"net"
 	"os"
 	"path/filepath"
+	"regexp"
 	"strings"
 	"sync"
 	"sync/atomic"
@@ -65,9 +66,28 @@ const c14Rule = "case = raw-socket producer configuration (tcp | udp, retry-max 
 	"byte-identical input messages with strictly increasing indices (no duplicate, no corruption, no reordering), and once the sink is reachable again probe messages handed over one at a time resume delivery within retry-max+4 probes with nothing missing afterwards; " +
 	"non-trivial = a message contains '%' or is >= 4 KiB, or the plan has a break; distinct by hash"
 
+// c14Nonce identifies the case under way (process id and a counter): the producer of an EARLIER case may still be
+// alive, re-dialling its old port, which the system may since have handed to this case's sink (also in another shard's
+// process); what such a stray sends is recognised by its tag and ignored.
+var (
+	c14Nonce string
+	c14Runs  int64
+)
+
+func c14Tag() []byte { return []byte(`"c":"` + c14Nonce + `"`) }
+
+var c14TagRe = regexp.MustCompile(`"c":"[0-9]+-[0-9]+"`)
+
+// foreignTag: the octets begin a message of ANOTHER case (they carry a case tag, and it is not ours). Octets without
+// any tag — the tail of a message at the start of a connection, say — are this case's business and are judged.
+func foreignTag(head, own []byte) bool {
+	m := c14TagRe.Find(head)
+	return m != nil && !bytes.Equal(m, own)
+}
+
 func c14Message(i int, payload []byte) []byte {
 	var b bytes.Buffer
-	fmt.Fprintf(&b, `{"i":%d,"p":"`, i)
+	fmt.Fprintf(&b, `{"i":%d,"c":"%s","p":"`, i, c14Nonce)
 	b.Write(payload)
 	b.WriteString(`"}`)
 	return b.Bytes()
@@ -232,6 +252,8 @@ type c14Sink struct {
 	stopped  bool
 	wg       sync.WaitGroup
 	progress chan struct{}
+	tag      []byte // the case's tag (see c14Nonce)
+	strays   int    // connections of an earlier case's producer, dropped
 }
 
 func (s *c14Sink) notify() {
@@ -284,8 +306,34 @@ func (s *c14Sink) serve(conn net.Conn) {
 	defer conn.Close()
 	var pending []byte
 	buf := make([]byte, 65536)
+	// whose connection is this? its first octets carry the case's tag; a stray of an earlier case is dropped whole
+	identified := false
+	var hold []byte
 	for {
 		n, err := conn.Read(buf)
+		if n > 0 && !identified {
+			hold = append(hold, buf[:n]...)
+			if len(hold) < 96 && bytes.IndexByte(hold, '\n') < 0 && err == nil {
+				continue
+			}
+			head := hold
+			if len(head) > 96 {
+				head = head[:96]
+			}
+			if foreignTag(head, s.tag) {
+				s.mu.Lock()
+				s.strays++
+				s.mu.Unlock()
+				return
+			}
+			identified = true
+			n = copy(buf, hold)
+			if n < len(hold) {
+				buf = append(buf[:0], hold...)
+				n = len(hold)
+			}
+			hold = nil
+		}
 		if n > 0 {
 			s.mu.Lock()
 			s.stream = append(s.stream, buf[:n]...)
@@ -401,6 +449,7 @@ func c14Dir() string {
 }
 
 func runC14(c *c14Case) (v verdict, sig string, err error) {
+	c14Nonce = fmt.Sprintf("%d-%d", os.Getpid(), atomic.AddInt64(&c14Runs, 1))
 	if len(c.Msgs) == 0 {
 		return v, "", fmt.Errorf("bad case: no messages")
 	}
@@ -430,7 +479,7 @@ func runC14(c *c14Case) (v verdict, sig string, err error) {
 	if c.Protocol == "udp" {
 		return runC14UDP(c, v)
 	}
-	sink := &c14Sink{addr: "127.0.0.1:0", breaks: c.Breaks, progress: make(chan struct{}, 1)}
+	sink := &c14Sink{addr: "127.0.0.1:0", breaks: c.Breaks, progress: make(chan struct{}, 1), tag: c14Tag()}
 	if e := sink.listen(); e != nil {
 		return v, "", fmt.Errorf("harness: %v", e)
 	}
@@ -710,6 +759,24 @@ func runC14(c *c14Case) (v verdict, sig string, err error) {
 // runC14UDPOutage: the sink's socket is closed after message After-1 for DownMS (messages handed over meanwhile may
 // be lost), then bound again to the same port; delivery must resume within retry-max+4 messages and lose nothing
 // afterwards; every datagram that arrives is exactly the message it was handed over as.
+// readOwn reads the next datagram that carries the case's tag (a stray of an earlier case's producer is ignored).
+func readOwn(pc net.PacketConn, buf []byte) (int, error) {
+	tag := c14Tag()
+	for {
+		n, _, err := pc.ReadFrom(buf)
+		if err != nil {
+			return n, err
+		}
+		head := buf[:n]
+		if len(head) > 96 {
+			head = head[:96]
+		}
+		if !foreignTag(head, tag) {
+			return n, nil
+		}
+	}
+}
+
 func runC14UDPOutage(c *c14Case, v verdict, pc net.PacketConn, ch chan []byte) (verdict, string, error) {
 	b := c.Breaks[0]
 	addr := pc.LocalAddr().String()
@@ -758,7 +825,7 @@ func runC14UDPOutage(c *c14Case, v verdict, pc net.PacketConn, ch chan []byte) (
 				time.Sleep(20 * time.Millisecond)
 				pc.SetReadDeadline(time.Now().Add(30 * time.Millisecond))
 				for {
-					if _, _, err := pc.ReadFrom(buf); err != nil {
+					if _, err := readOwn(pc, buf); err != nil {
 						break
 					}
 				}
@@ -770,7 +837,7 @@ func runC14UDPOutage(c *c14Case, v verdict, pc net.PacketConn, ch chan []byte) (
 			wait = 400 * time.Millisecond
 		}
 		pc.SetReadDeadline(time.Now().Add(wait))
-		n, _, err := pc.ReadFrom(buf)
+		n, err := readOwn(pc, buf)
 		if err != nil {
 			if everDown && !resumed {
 				lostAfter++
@@ -868,7 +935,7 @@ func runC14UDP(c *c14Case, v verdict) (verdict, string, error) {
 		m := c14Message(i, pl)
 		ch <- append([]byte{}, m...)
 		pc.SetReadDeadline(time.Now().Add(5 * time.Second))
-		n, _, err := pc.ReadFrom(buf)
+		n, err := readOwn(pc, buf)
 		if err != nil {
 			return v, "udp-missing", fmt.Errorf("message %d (%d octets) was not delivered as a datagram within 5 s: %v", i, len(m), err)
 		}
@@ -878,7 +945,7 @@ func runC14UDP(c *c14Case, v verdict) (verdict, string, error) {
 		}
 	}
 	pc.SetReadDeadline(time.Now().Add(50 * time.Millisecond))
-	if n, _, err := pc.ReadFrom(buf); err == nil {
+	if n, err := readOwn(pc, buf); err == nil {
 		return v, "udp-extra", fmt.Errorf("an extra datagram of %d octets arrived after all messages had been delivered", n)
 	}
 	return v, "", nil
